@@ -131,6 +131,7 @@ func checkC01(w *World, r *Report) {
 	checkUseAfterRelease(w, r)
 	checkGlobalMemos(w, r, "R01.6", nil)
 	checkGlobalAliasing(w, r, "R01.8")
+	checkTemplateTreeNeverReleased(w, r, "R01.9")
 	checkNoAliasedHeaders(w, r, "R01.7")
 }
 
